@@ -403,6 +403,7 @@ type Heap struct {
 	root    bool
 	smt     *Smt
 	ac      string // allocation counter when this (root) heap state came into being
+	asOf    string // (state right after a call) allocation counter at that moment: every pointer in memory refers to an older object
 }
 
 var heapSeq int
@@ -415,6 +416,20 @@ func (s *Smt) newRootHeap() *Heap {
 func (h *Heap) child() *Heap {
 	heapSeq++
 	return &Heap{id: heapSeq, over: map[string]string{}, next: h, smt: h.smt}
+}
+
+// asOfCounter: the allocation counter of the moment this heap state describes, when that is known
+// (the node was created right after a call and nothing has been stored since).
+func (h *Heap) asOfCounter() string {
+	for n := h; n != nil; n = n.next {
+		if n.asOf != "" {
+			return n.asOf
+		}
+		if len(n.over) > 0 || len(n.merge) > 0 {
+			return ""
+		}
+	}
+	return ""
 }
 
 func heapKey(cellSort string) string { return sanitize(cellSort) }
